@@ -5257,7 +5257,8 @@ bool SoPlexBase<R>::multBasis(R* vec, bool unscale)
    {
       int colbasisdim = numRows();
 
-      DSVectorBase<R> y(colbasisdim);
+      // dense accumulator for B * x (several basis columns may contribute to the same row)
+      VectorBase<R> y(colbasisdim);
 
       y.clear();
 
@@ -5290,7 +5291,7 @@ bool SoPlexBase<R>::multBasis(R* vec, bool unscale)
                assert(index < numRows());
                assert(!_solver.isRowBasic(index));
 
-               y.add(x[i] * UnitVectorBase<R>(index));
+               y[index] += x[i];
             }
             // r corresponds to a column vector
             else
@@ -5303,10 +5304,10 @@ bool SoPlexBase<R>::multBasis(R* vec, bool unscale)
                {
                   DSVectorBase<R> col;
                   _solver.getColVectorUnscaled(index, col);
-                  y.add(x[i] * col);
+                  y.multAdd(x[i], col);
                }
-
-               y.add(x[i] * _solver.colVector(index));
+               else
+                  y.multAdd(x[i], _solver.colVector(index));
             }
          }
       }
